@@ -1639,6 +1639,46 @@ private theorem flatten_go_members : ∀ (ls : List Level) (a b : Nat),
     simp only [Drv.flatten.go, List.map_append, List.map_map, List.flatten_cons, ih]
     congr 1
 
+private theorem filter_ge_length (c : Nat) : ∀ n, ((List.range n).filter fun p => decide (c ≤ p)).length = n - c := by
+  intro n
+  induction n with
+  | zero => simp
+  | succ k ih =>
+    rw [List.range_succ, List.filter_append, List.length_append, ih]
+    by_cases h : c ≤ k
+    · simp [h]; omega
+    · simp [h]; omega
+
+/-- **number of leaves** of the generated n-ary tree: all nodes but the `⌈(n−1)/N⌉` parents -/
+theorem c12_nary_leaves (N n r : Nat) (hN : 1 ≤ N) (hn : 1 ≤ n) :
+    leaves (naryClosed N r n) = n - (n - 1 + N - 1) / N := by
+  have hlen : (naryClosed N r n).length = n := by simp [naryClosed]
+  unfold leaves
+  rw [hlen, ← filter_ge_length ((n - 1 + N - 1) / N) n]
+  congr 1
+  apply List.filter_congr
+  intro p _
+  rw [c12_nary_arity N n r hN hn]
+  -- min N (n-1-N*p) = 0  ↔  ⌈(n-1)/N⌉ ≤ p
+  have key : (n - 1 + N - 1) / N ≤ p ↔ n - 1 ≤ N * p := by
+    constructor
+    · intro h
+      have h1 := Nat.mul_le_mul_left N h
+      have h2 := div_hi hN (n - 1 + N - 1)
+      omega
+    · intro h
+      apply Nat.le_of_lt_succ
+      apply Nat.lt_of_mul_lt_mul_left (a := N)
+      rw [Nat.mul_succ]
+      have h2 := div_lo (N := N) (n - 1 + N - 1)
+      omega
+  by_cases hp : n - 1 ≤ N * p
+  · have : min N (n - 1 - N * p) = 0 := by omega
+    simp [this, key.mpr hp]
+  · have h0 : ¬ min N (n - 1 - N * p) = 0 := by omega
+    have h1 : ¬ (n - 1 + N - 1) / N ≤ p := fun h => hp (key.mp h)
+    simp [h0, h1]
+
 /-- the big generator with as many nodes as servers returns a tree that passes `UsesList()`
 (stated on the creation-order form the driver prints) -/
 theorem c12_big_usesList (c : BigCfg) (hN : 1 ≤ c.N) (hall : c.nodes = c.hosts.length) (hnodes : 1 ≤ c.nodes)
